@@ -50,6 +50,9 @@ type WorkerStats struct {
 	States     []string          `json:"states"`
 	Samples    []json.RawMessage `json:"samples"`
 	MaxIdx     int               `json:"max_idx"`
+	// violations that did not show again when the same run index was
+	// executed alone in a fresh process ("idx signature")
+	Irreproducible []string `json:"irreproducible,omitempty"`
 }
 
 const maxHashesPerWorker = 400000
@@ -134,6 +137,14 @@ func Worker(opt Options, w, W int, deadlineUnix int64, hashFile string, out io.W
 			}
 		}
 		if ctx.Violation != nil {
+			// One run is one execution: a verdict must not depend on what
+			// earlier runs left behind in this process (package-level
+			// state of the code under test). Confirm in a fresh process;
+			// what does not show there is counted and the worker goes on.
+			if !strings.HasPrefix(ctx.Violation.Signature, "hang/") && !confirmAlone(opt, idx) {
+				st.Irreproducible = append(st.Irreproducible, fmt.Sprintf("%d %s", idx, ctx.Violation.Signature))
+				continue
+			}
 			raw, _ := json.Marshal(ctx.Violation)
 			fmt.Fprintf(bw, "V %d %s\n", idx, raw)
 			break
@@ -158,6 +169,29 @@ func Worker(opt Options, w, W int, deadlineUnix int64, hashFile string, out io.W
 		_ = os.WriteFile(hashFile, buf, 0o644)
 	}
 	return 0
+}
+
+// confirmAlone re-executes one run index in a fresh process and reports
+// whether it ends in a violation there too (anything but a clean exit counts:
+// a crash of the child is sorted out by the orchestrator).
+func confirmAlone(opt Options, idx int) bool {
+	args := append([]string{"one"}, baseArgs(opt)...)
+	args = append(args, "-idx", strconv.Itoa(idx))
+	cmd := exec.Command(selfExe(), args...)
+	cmd.Stdout, cmd.Stderr = io.Discard, io.Discard
+	done := make(chan error, 1)
+	if err := cmd.Start(); err != nil {
+		return true
+	}
+	go func() { done <- cmd.Wait() }()
+	select {
+	case err := <-done:
+		return err != nil
+	case <-time.After(120 * time.Second):
+		_ = cmd.Process.Kill()
+		<-done
+		return true
+	}
 }
 
 type workerResult struct {
@@ -247,6 +281,7 @@ func runSeed(opt Options, e Engine, b *batch) {
 			if r.stats.MaxIdx > total.MaxIdx {
 				total.MaxIdx = r.stats.MaxIdx
 			}
+			total.Irreproducible = append(total.Irreproducible, r.stats.Irreproducible...)
 			if raw, err := os.ReadFile(filepath.Join(tmp, fmt.Sprintf("h%d", w))); err == nil {
 				for i := 0; i+8 <= len(raw); i += 8 {
 					b.hashes[binary.LittleEndian.Uint64(raw[i:])] = struct{}{}
@@ -338,6 +373,13 @@ func Run(opt Options) int {
 		}
 	}
 
+	if len(total.Irreproducible) > 0 {
+		fmt.Printf("NOTE: %d violation(s) seen by a worker did not show again in a fresh process and were not reported, e.g. run %s\n", len(total.Irreproducible), total.Irreproducible[0])
+	}
+	if firstVio == nil && trouble == "" && len(total.Irreproducible) > 0 {
+		trouble = fmt.Sprintf("%d violation(s) did not show again when their run was executed alone in a fresh process (state leaking between the runs of one worker?), e.g. run %s",
+			len(total.Irreproducible), total.Irreproducible[0])
+	}
 	// Known findings seen in this batch.
 	for _, sig := range sortedKeys(total.Known) {
 		fmt.Printf("KNOWN-FINDING: property=%s %s [signature %s, %d hits; e.g. %s]\n",
@@ -625,6 +667,30 @@ func shrinkAndReplay(opt Options, idx int) (string, int) {
 		fmt.Fprintf(os.Stderr, "HARNESS: shrink child failed: %v\n%s\n", err, out)
 		return "", 2
 	}
+	if code := confirmReplay(path); code != 2 {
+		return path, code
+	}
+	// The minimised trace does not fail in a fresh process: the minimiser
+	// executes its candidates in one process, so state that the code under
+	// test keeps between executions can make a candidate fail there and
+	// nowhere else. Fall back to the trace as generated (which the worker
+	// confirmed alone in a fresh process).
+	fmt.Fprintf(os.Stderr, "NOTE: the minimised trace does not reproduce in a fresh process; writing the trace as generated instead\n")
+	os.Remove(path)
+	cmd = exec.Command(selfExe(), args...)
+	cmd.Env = append(os.Environ(), "VERIF_NO_MINIMISE=1")
+	cmd.Stderr = os.Stderr
+	out, err = cmd.Output()
+	path = ""
+	for _, l := range strings.Split(string(out), "\n") {
+		if strings.HasPrefix(l, "REPLAY ") {
+			path = strings.TrimSpace(l[7:])
+		}
+	}
+	if err != nil || path == "" {
+		fmt.Fprintf(os.Stderr, "HARNESS: shrink child failed: %v\n%s\n", err, out)
+		return "", 2
+	}
 	return path, confirmReplay(path)
 }
 
@@ -672,7 +738,10 @@ func Shrink(opt Options, idx int) int {
 	}
 	sig := ctx.Violation.Signature
 	origLen := tr.Len()
-	best, v, execs := Minimise(e, tr, opt.Prop, tol, sig, 4000)
+	best, v, execs := tr, (*Violation)(nil), 0
+	if os.Getenv("VERIF_NO_MINIMISE") == "" {
+		best, v, execs = Minimise(e, tr, opt.Prop, tol, sig, 4000)
+	}
 	minimised := true
 	if v == nil {
 		best, v, minimised = tr, ctx.Violation, false
